@@ -1,4 +1,4 @@
-"""selftest: --models (reference-model validation), --determinism, --sensitivity, --fidelity."""
+"""selftest: --models (reference-model validation), --determinism, --sensitivity, --specificity, --fidelity."""
 import sys
 
 
@@ -22,7 +22,7 @@ def models():
 def main(args):
     did = False
     status = 0
-    if args.models or not (args.determinism or args.sensitivity or args.fidelity):
+    if args.models or not (args.determinism or args.sensitivity or args.fidelity or args.specificity):
         did = True
         problems = models()
         for p in problems:
@@ -36,6 +36,9 @@ def main(args):
     if args.sensitivity:
         from cocosim import selftest_sens
         status = max(status, selftest_sens.main(args))
+    if args.specificity:
+        from cocosim import selftest_spec
+        status = max(status, selftest_spec.main(args))
     if args.fidelity:
         from cocosim import selftest_fid
         status = max(status, selftest_fid.main(args))
